@@ -86,8 +86,11 @@ class Ctx:
                 else:
                     target.remove(lst)
                     self.ev("RemRet", caller)
-            except BaseException:
+            except BaseException as ex:
                 rec["after_raise"] = [inv.get(id(o), -1) for o in target.doers]
+                if form == "catch" and isinstance(ex, ScriptError):
+                    rec["caught"] = True        # the calling doer handles the failure and carries on
+                    continue
                 raise
             rec["end"] = len(self.log) - 1
             rec["after"] = [inv.get(id(o), -1) for o in target.doers]
@@ -166,6 +169,8 @@ def _build(ctx, i):
                     raise ScriptError(i)
                 if o[0] == "k":
                     raise KeyboardInterrupt()
+                if o[0] == "s":
+                    raise SystemExit(3)
                 # a plain-recur Doer cannot return at enter: generators never give it "r" at step 0
             def recur(self, tyme):
                 ctx.ev("Recur", i, own=lambda: self.tyme)
@@ -180,6 +185,8 @@ def _build(ctx, i):
                     return True
                 if o[0] == "k":
                     raise KeyboardInterrupt()
+                if o[0] == "s":
+                    raise SystemExit(3)
                 raise ScriptError(i)
             def clean(self):
                 hook("clean")
@@ -211,6 +218,8 @@ def _build(ctx, i):
                         return RET[o[1]]
                     elif o[0] == "k":
                         raise KeyboardInterrupt()
+                    elif o[0] == "s":
+                        raise SystemExit(3)
                     else:
                         raise ScriptError(i)
             def clean(self):
@@ -244,6 +253,8 @@ def _build(ctx, i):
                         break
                     elif o[0] == "k":
                         raise KeyboardInterrupt()
+                    elif o[0] == "s":
+                        raise SystemExit(3)
                     else:
                         raise ScriptError(i)
             except GeneratorExit:
@@ -359,6 +370,9 @@ def run_prog(prog):
         except KeyboardInterrupt:
             raised = "kbd"
             ctx.log.append(("DoRaise", 0, doist.tyme))
+        except SystemExit as ex:
+            raised = f"sysexit:{ex.code}"
+            ctx.log.append(("DoRaise", 0, doist.tyme))
         except Exception as ex:
             raised = "escape:" + type(ex).__name__
             ctx.log.append(("DoRaise", 0, doist.tyme))
@@ -378,6 +392,9 @@ def run_prog(prog):
         except KeyboardInterrupt:
             raised = "kbd"
             ctx.log.append(("DoRaise", 0, doist.tyme))
+        except SystemExit as ex:
+            raised = f"sysexit:{ex.code}"
+            ctx.log.append(("DoRaise", 0, doist.tyme))
         except Exception as ex:
             raised = "escape:" + type(ex).__name__
             ctx.log.append(("DoRaise", 0, doist.tyme))
@@ -396,6 +413,9 @@ def run_prog(prog):
             ctx.log.append(("DoRaise", 0, doist.tyme))
         except KeyboardInterrupt:
             raised = "kbd"
+            ctx.log.append(("DoRaise", 0, doist.tyme))
+        except SystemExit as ex:
+            raised = f"sysexit:{ex.code}"
             ctx.log.append(("DoRaise", 0, doist.tyme))
         except Exception as ex:
             raised = "escape:" + type(ex).__name__
@@ -473,7 +493,8 @@ EK = {"Enter", "Recur", "Clean", "Cease", "Abort", "Exit", "ExtRet", "RemRet", "
 def outside_model(prog):
     """Programs the Coq model does not express (decided by the direct oracle only): a doer whose
     clean/cease/abort/exit context itself raises."""
-    return (any(d.get("hookraise") for d in prog["defs"].values()) or bool(prog.get("enter_effects"))
+    return (any(d.get("hookraise") for d in prog["defs"].values()) or bool(prog.get("enter_effects")) or bool(prog.get("catch_ext"))
+            or any(st["out"][0] == "s" for d in prog["defs"].values() if d["kind"] != "nest" for st in d["script"])
             or bool(prog.get("manual") and prog["manual"]["then"] != "exit"))
 
 
@@ -1151,3 +1172,20 @@ def add_falsy(rng, progs, share=0.2):
         for d in rng.sample(cands, min(len(cands), rng.choice([1, 1, 2]))):
             d["falsy"] = True
     return progs
+
+
+def gen_sysexit(rng, n):
+    """Programs in which one doer calls sys.exit() in its enter or a recur step (outside the Coq model, which knows
+    scripted exceptions and KeyboardInterrupt only: oracle only): the run force-closes the others and SystemExit
+    leaves do()/ado() to the caller."""
+    out = []
+    for _ in range(n):
+        p = gen_static(rng, n_leaves=rng.randint(2, 5), nest_depth=rng.choice([0, 1, 2]), faults=False, tocks="dyadic", limit_p=0.5)
+        i = rng.choice(leaf_ids(p))
+        sc_ = p["defs"][str(i)]["script"]
+        k = rng.randint(0 if p["defs"][str(i)]["kind"] != "doer" else 1, max(1, len(sc_) - 1))
+        k = min(k, len(sc_) - 1)
+        sc_[k] = {"es": [], "out": ["s"]}
+        del sc_[k + 1:]
+        out.append(p)
+    return out
